@@ -36,6 +36,11 @@ VID = {n: i + 31 for i, n in enumerate(VOCABS)}
 OID = {"inc": 1, "inc.custom": 2}   # other config resources (grows on demand)
 
 MUTATION_DRILLS = [
+    {"mutation": "core_module.cc: BuildInfoPlugin installed right after DefaultConfigPlugin, before LegacyPresetConfigPlugin "
+                 "(files named by import_preset no longer recorded in __build_info/timestamps)",
+     "ran": "VERIF_REPO=<worktree> bin/check C12 quick",
+     "fired": "exit 1, failing input: stale-vs-clean:schema.yaml (t.schema.yaml keeps the old punctuator) after a history "
+              "ending in [..., 'preset-custom-patch'] (mypunct.custom.yaml added with no other change)"},
     {"mutation": "ConfigNeedsUpdate: `recorded_time != mtime` became `mtime > recorded_time` (stale only if newer)",
      "ran": "VERIF_REPO=<worktree> bin/check C12 quick",
      "fired": "exit 1, VIOLATION with failing inputs: stale-vs-clean:schema.yaml after [..., 'restore shared/v.schema.yaml "
